@@ -96,6 +96,10 @@ impl<T: RefCnt> HybridProtection<T> {
                 Self::from_inner(unsafe { Self::new(candidate, Some(debt)).into_inner() })
             }
             Err((unused_debt, replacement)) => {
+                // We got a (possibly) different pointer out. But that one is already protected.
+                // Take the ownership of it first, so it is not lost if releasing the candidate
+                // below runs a destructor that panics.
+                let result = unsafe { Self::new(replacement as *mut _, None) };
                 // The debt is on the candidate we provided and it is unused, we so we just pay it
                 // back right away.
                 verif_step!(FALLBACK_HELPED);
@@ -103,9 +107,8 @@ impl<T: RefCnt> HybridProtection<T> {
                     verif_step!(FALLBACK_UNUSED_PAID);
                     unsafe { T::dec(candidate) };
                 }
-                // We got a (possibly) different pointer out. But that one is already protected and
-                // the slot is paid back.
-                unsafe { Self::new(replacement as *mut _, None) }
+                // The slot is paid back.
+                result
             }
         }
     }
